@@ -70,8 +70,13 @@ def path(fn, n, resolve_refs=True, _depth=0):
     if c == 'CXXOperatorCallExpr':
         op = o.get('op')
         obj = o.get('obj')
-        if op in SMART_DEREF_OPS and obj and len(o.get('args', [])) == 1:
+        if op == '->' and obj and len(o.get('args', [])) == 1:
+            # yields a pointer-like value; the enclosing MemberExpr(arrow) adds the dereference
+            return path(fn, obj, resolve_refs, _depth + 1)
+        if op == '*' and obj and len(o.get('args', [])) == 1:
             return path(fn, obj, resolve_refs, _depth + 1) + ('*',)
+        if op == '[]' and obj:
+            return path(fn, obj, resolve_refs, _depth + 1) + ('[]',)
         return ('tmp#%d' % n,)
     if c == 'CXXMemberCallExpr':
         obj = o.get('obj')
